@@ -11,6 +11,7 @@ case "$P" in
   *.sh) (cd "$D" && bash "$P") ;;
   *) (cd "$D" && git apply --unsafe-paths -p1 "$P" 2>/dev/null || patch -s -p1 < "$P") ;;
 esac || { echo "APPLY-FAILED"; rm -rf "$D"; exit 3; }
+if diff -rq --exclude .git /repo "$D" >/dev/null; then echo "NO-CHANGE: the mutant did not modify anything"; rm -rf "$D"; exit 3; fi
 (cd "$D" && go build -tags unit ./... ) || { echo "BUILD-FAILED"; rm -rf "$D"; exit 3; }
 rc=0
 for prop in "$@"; do
